@@ -723,5 +723,6 @@ def swap_site(out_ops_list, primary_ops: List, swap_jw: bool, algo="Hopcroft-Kar
     mo1 = compose_symbolic_mo(out_ops1, new_out_ops2, primary_ops)
     mo2 = compose_symbolic_mo(new_out_ops2, new_out_ops3, primary_ops)
     # print(_format_symbolic_mpo([mo1, mo2]))
-    qn = [opsum[0].qn for opsum in new_out_ops2]
+    # an array, like the bond quantum numbers produced by `construct_symbolic_mpo`
+    qn = np.array([opsum[0].qn for opsum in new_out_ops2])
     return new_out_ops2, new_out_ops3, mo1, mo2, qn
